@@ -173,6 +173,10 @@ def plans(tier):
          "layouts": ["mem", "l0x3", "restart"] if q else query.LAYOUTS},
         {"name": "us", "kinds": {"x": "u64s", "y": "string2"}, "epz": 1, "shards": 3, "n": 8, "n2": 30 if q else 300, "n3": 20 if q else 200,
          "layouts": ["l0", "l1"] if q else query.LAYOUTS},
+        {"name": "many", "kinds": {"x": "int", "y": "string"}, "epz": 1, "shards": 1, "n": 16, "n2": 20 if q else 200, "n3": 10 if q else 100,
+         "layouts": ["l0ab"] if q else ["l0ab", "l1"]},
+        {"name": "dt", "kinds": {"x": "datetime2", "y": "int"}, "epz": 3, "shards": 1, "n": 10, "n2": 30 if q else 300, "n3": 20 if q else 200,
+         "layouts": ["l0", "l1"] if q else query.LAYOUTS},
         # kinds whose leaves mostly hit open findings: kept as small probe plans
         {"name": "fb", "kinds": {"x": "float", "y": "bool"}, "epz": 2, "shards": 1, "n": 8, "n2": 5, "n3": 5,
          "layouts": ["mem", "l0"]},
@@ -314,8 +318,6 @@ def stage_t(chk, tier, bindir, rnd, stats):
         reqs = []
         for _ in range(150 if q else 600):
             w = query.random_expr(rnd, kinds, rnd.choice((1, 2, 3, 4)), allow=supported_leaf)
-            if layout != "mem" and has_or_any(w):
-                continue            # open finding C02-or-loses-zones-on-disk
             ctx = rnd.choice(["*", "*", "*"] + ctxs[:2])
             since = rnd.choice([-1, -1, -1, 20, 30])
             reqs.append({"ctx": ctx, "since": since, "where": w})
